@@ -16,6 +16,7 @@ RENAMES = {
     'to_be_bytes': 'shim_to_be_bytes', 'to_le_bytes': 'shim_to_le_bytes', 'to_ne_bytes': 'shim_to_ne_bytes',
     'from_be_bytes': 'shim_from_be_bytes', 'from_le_bytes': 'shim_from_le_bytes',
     'from_ne_bytes': 'shim_from_ne_bytes',
+    'try_into': 'shim_try_into',
 }
 # renames that apply only when the previous tokens are `<int type> ::`
 INT_ASSOC = {'from_be_bytes', 'from_le_bytes', 'from_ne_bytes'}
@@ -218,6 +219,15 @@ def transform(toks, it, hoist_names=None, hoist_suffix=None, is_member=False, re
                     j = k + 1
                     continue
                 raise InfraError('unsupported attribute %s in body of %s' % (txt, fn_item.name))
+            if t.kind == 'ident' and t.text == 'use' and toks[j - 1].text in ('{', ';', '}', ']'):
+                # a `use` declaration inside a nested block (Verus rejects items in bodies; the
+                # prelude provides the names): dropped
+                k = j
+                while toks[k].text != ';':
+                    k += 1
+                res.dropped.append(('use', ''.join(x.text for x in toks[j:k + 1])))
+                j = k + 1
+                continue
             if t.kind == 'ident' and t.text in RENAMES and j > 0 and toks[j - 1].text in ('.', '::'):
                 res.renamed[t.text] = res.renamed.get(t.text, 0) + 1
                 emit(t, RENAMES[t.text])
